@@ -48,6 +48,7 @@ def check_C01(ctx, tier):
             _sample_paths(ctx, d, paths, lambda o: o.kind == 'return' and any(e.kind == 'DEL' for e in o.st.events))
     S.rule_S_LOAD_DUMP(ctx, ctx.repo)      # load/dump copy values under the same key (used by the inductive argument)
     K.rule_K_OWN(ctx, ctx.repo)            # the key of a call does not depend on earlier calls (no aliasing of module-level state)
+    G.rule_SIG(ctx, ctx.repo)              # arguments are filed under the parameter names of the callable that is actually called, inspected now
     A.rule_A_FNAME(ctx, ctx.repo, A.Cache(ctx.repo, unroll=1))    # two keys never share an archive entry through a lossy entry name
     ctx.require_instances('W-KEY', 36, 'key uses')
     ctx.require_instances('W-ARGS', 12, 'evaluation sites')
@@ -72,6 +73,7 @@ def check_C02(ctx, tier):
     ac = A.Cache(ctx.repo, unroll=1)
     A.rule_A_FNAME(ctx, ctx.repo, ac)             # ... under an entry name that is the same in every session
     A.rule_A_KEYERR_FOUND(ctx, ctx.repo, ac)      # ... and a stored None / 0 / '' is found, not reported as missing
+    A.rule_A_PUBFAIL(ctx, ctx.repo, ac)           # ... and a failed write of one result never destroys the results archived before
     ctx.assume('cache.load(k) retrieves what cache.dump(k) stored for every backend (C03/C04/C08 decide their structural part)')
     ctx.assume('cache.archived() and purge have one value during a single wrapper call')
     return ('Compute-once on every path: at most one evaluation; evaluation only directly after a failed lookup of K which, '
@@ -132,6 +134,7 @@ def check_C15(ctx, tier):
     for d, paths in _wrappers(ctx, tier):
         W.setup_abbrev(d)
         W.rule_W_STAT(ctx, d, paths)
+        W.rule_W_STAT_STOREFAIL(ctx, d)
         W.rule_W_INFO(ctx, d)
         W.rule_W_STATE(ctx, d, keys=('maxsize',))      # info().maxsize is the configured bound
         W.rule_W_CLEAR(ctx, d)
@@ -190,6 +193,7 @@ def check_C10(ctx, tier):
     K.rule_K_FAST(ctx, ctx.repo)
     K.rule_K_OWN(ctx, ctx.repo)
     G.rule_G(ctx, ctx.repo, want=('G-VAL', 'G-PREC'))
+    G.rule_SIG(ctx, ctx.repo)              # a positional value is never filed under a keyword-only / variadic name (two different calls would share a key)
     ctx.assume('injectivity of repr/str/pickle of the argument values and fast-type unwrapping collisions are not decided')
     return ('Every positional argument and every (name, value) keyword item reaches the key whole on every path of keymap.encode/encrypt; '
             'typed keys append the types of all positional and all keyword values; a configured sentinel separates every two adjacent '
@@ -202,6 +206,7 @@ def check_C17(ctx, tier):
     K.rule_K_REPR(ctx, ctx.repo)
     K.rule_K_HASH(ctx, ctx.repo)
     K.rule_K_OWN(ctx, ctx.repo)     # a key must not depend on what this process keyed before (module-level state on the key path)
+    K.rule_K_BYREF(ctx, ctx.repo)   # dill pickles by reference
     ctx.assume("process independence of the arguments' own repr/pickle is assumed by the property")
     return ('No process-dependent value (builtin hash, id, random, time, set iteration) reaches a key in the raw/string/pickle/named-hash '
             'configurations; keyword order is removed by the sorter; marker objects embedded in keys have constant reprs.')
@@ -230,8 +235,8 @@ def check_C11(ctx, tier):
 
 
 def check_C19(ctx, tier):
-    G.rule_V(ctx, ctx.repo)
     G.rule_SIG(ctx, ctx.repo)
+    G.rule_V(ctx, ctx.repo)
     K.rule_K_OWN(ctx, ctx.repo)                    # signature() is free of cross-call state (a memoised argspec mutated in place changes later verdicts)
     ctx.assume("agreement of validate's individual binding checks with the interpreter (counting, partial bookkeeping) is value-level and not decided")
     return ('Necessary conditions for "validate/isvalid agree with Python\'s binding without calling the function": every rejection is a TypeError; '
@@ -354,11 +359,13 @@ def check_C20(ctx, tier):
         W.setup_abbrev(d)
         W.rule_W_RED(ctx, d)
         W.rule_W_LOCAL(ctx, d)
+    W.rule_W_BKPICKLE(ctx, ctx.repo)
     RR.rule_R_NONE(ctx, ctx.repo)
     A.rule_A_RED_COPY(ctx, ctx.repo, cache)
     A.rule_A_EFF(ctx, ctx.repo, cache, must_read_only=True)     # clone and original share storage only: every read goes to the store, not to a process-wide table
     S.rule_S_RED(ctx, ctx.repo)
     K.rule_K_REPR(ctx, ctx.repo)      # K-SINGLETON: marker objects inside keys survive the round trip as themselves
+    K.rule_K_STATE(ctx, ctx.repo)     # a keymap keeps its options through copy / pickle
     ctx.require_instances('W-RED', 12, 'decorator __reduce__ methods')
     ctx.assume("dill's by-value closure pickling and lock-step equality of the clone are not decided")
     return ('Each decorator\'s __reduce__ rebuilds the class from __state__ with every __init__ parameter in its own position (or the '
@@ -431,11 +438,29 @@ def liveness(ctx, prop, repo_root):
     ctx.sample({'liveness variants detected': [r[0] for r in results if r[1]][:10] + ['seeded ' + r[0] for r in sres if r[1]][:10]})
 
 
+def _is_known(prop, f):
+    from . import report as _report
+    from .report import norm_detail
+    known = _report.load_known()
+    keys = set((k['property'], k['rule'], k['construct'], norm_detail(k['detail'])) for k in known.get('findings', []))
+    return f.key(prop) in keys
+
+
 def run(prop, tier='quick', repo_root=None):
     repo = Repo(repo_root)
     ctx = Ctx(prop, tier, repo)
     fn = CHECKS[prop]
-    rule_text = fn(ctx, tier)
+    try:
+        rule_text = fn(ctx, tier)
+    except AnalysisError as e:
+        # a definite violation found before the analyser lost its footing is reported as such (findings listed as known are not violations)
+        from . import report as _report
+        real = [f for f in ctx.findings if not _is_known(prop, f)]
+        if not real:
+            raise
+        ctx.note('analysis incomplete: %s' % e)
+        print('NOTE analysis incomplete after the violation(s) below: %s' % e)
+        rule_text = 'Analysis stopped early: %s.' % e
     if tier == 'thorough' and not __import__('os').environ.get('KV_NO_LIVENESS'):
         liveness(ctx, prop, repo_root)
     return finish(ctx, rule_text,
